@@ -383,6 +383,11 @@ func (state *inflate) readLitDistLens(ctx *dynamicHeaderReader, hdist, hlit int)
 					curr = litLen
 					count = ctx.distCount[:]
 				}
+				if curr >= end {
+					// the repeat runs past the declared number of distance codes
+					err = errInvalidBlock
+					goto END
+				}
 
 				huffs[curr] = repCode
 				count[repCode.Length()]++
